@@ -94,3 +94,12 @@ def if_condition(src, anchor):
     if a < 0: raise LostAnchor(anchor)
     bo = L.body_open(src, a)
     return src[a + 3:bo].strip(), a + 3, bo
+
+def closure_expr(src, anchor):
+    """the expression body of a closure passed as the last argument of a call: anchor = `.all(|x| ` ; returns text up to the call's closing paren."""
+    a = L.find_code(src, anchor)
+    if a < 0: raise LostAnchor(anchor)
+    po = src.index('(', a)
+    pc = L.match_close(src, po)
+    s = a + len(anchor)
+    return src[s:pc].strip(), s, pc
